@@ -54,15 +54,20 @@ DELAUNAY = {
 }
 
 BOUNDS = {
-    "quick": "neighbour tables computed by the repository's own mesh code for rectangular meshes 3x3, 3x4, 4x3, 4x4, 3x5, 5x5 and Delaunay vertex "
-             "sets D5, D6, D7, D9 (5-9 vertices); additionally EVERY symmetric neighbour table on <= 4 pixels (forked adjacency bits). Symbolic "
-             "reals: all coefficients (> 0), per-pixel weights (>= 0), adapt-data image (3x3, > 0), signal scale (symbolic via an uninterpreted "
-             "pow, and the concrete values 1, 2), pixel signals, split-cross interpolation weights, the test vector x, arbitrary regularization "
-             "blocks at the inversion level. Direct solver decision of positive definiteness (exists x != 0: x^T H x <= 0 is unsat) for the "
-             "constant-coefficient schemes on meshes with <= 9 pixels; block placement for every sequence of <= 3 linear objects over "
-             "{regularized 2x2, unregularized 1, unregularized 2} plus sequences containing a real rectangular mapper",
-    "thorough": "same plus rectangular meshes up to 6x6, every symmetric neighbour table on 5 pixels, direct definiteness up to 12 pixels (3x4, 4x3, D9), "
-                "4x4 adapt image, block sequences of <= 4 objects",
+    "quick": "ENUMERATED: neighbour tables produced by the repository's own mesh code for rectangular meshes 3x3, 3x4, 4x3, 4x4, 3x5, 5x5 and "
+             "Delaunay vertex sets D5, D6, D7, D9 (5-9 vertices), plus EVERY symmetric neighbour table on 2, 3, 4 pixels (adjacency bits forked); "
+             "scheme classes observed through real mappers (3x3 image grid) on 3x3, 3x4, D5, D7 and through linear function lists with 1, 2, 3, 5 "
+             "parameters; split-cross tables of the D5, D6 mappers; every sequence of <= 3 linear objects over {regularized 2x2, unregularized 1, "
+             "unregularized 2} plus 9 sequences containing a real rectangular mapper / function list. "
+             "SYMBOLIC (solver variables): all coefficients (> 0), kernel-level per-pixel weights (>= 0), the adapt-data image (> 0), the signal "
+             "scale (uninterpreted pow; and concrete 1, 2), pixel signals in [0,1], split-cross interpolation weights (any reals), the test vector x, "
+             "the entries of regularization blocks at the inversion level. "
+             "Definiteness decided directly by the solver (exists x != 0: x^T H x <= 0 unsat, coefficient symbolic) for Constant on all meshes with "
+             "<= 9 pixels, ConstantZeroth on <= 5 pixels, ConstantSplit (dyadic stand-in cross weights) on D5, D6; for all other scheme/mesh "
+             "combinations by solver-decided certificates (see assumptions)",
+    "thorough": "as quick plus rectangular meshes 4x5, 5x3, 6x6, 5x7, 7x7, 8x8 and Delaunay set D12 at kernel level, every symmetric neighbour table "
+                "on 5 pixels, classes on 4x4, 4x3, 5x5, D6, D9, D12 with 3x3 and 4x4 adapt images, function lists up to 8 parameters, split-cross tables of "
+                "all five Delaunay mappers, direct definiteness up to 12 pixels for rectangular meshes (3x4, 4x3), block sequences of <= 4 objects",
 }
 OUTSIDE = [
     "GaussianKernel / ExponentialKernel / MaternKernel schemes (exp of distances followed by a compiled matrix inverse; nothing is claimed)",
@@ -270,7 +275,7 @@ def _gt0(v, strict=True):
     return (v > 0) if strict else (v >= 0)
 
 
-def matrix_checks(A, E, tag, H, n, x=None, H_ref=None, quad_ref=None, dominance=None, pd_direct=False):
+def matrix_checks(A, E, tag, H, n, x=None, H_ref=None, quad_ref=None, dominance=None, pd_direct=False, pd_strict=True):
     """obligations about one regularization matrix H (proxy object array or float64 array)"""
     if isinstance(H, hx.Raised):
         A[tag + ".no_exception"] = repr(H) + " " + H.msg
@@ -307,8 +312,10 @@ def matrix_checks(A, E, tag, H, n, x=None, H_ref=None, quad_ref=None, dominance=
             xi[i] = 1.0
             for j in range(i):
                 xi[j] = 0.0
-            A[tag + ".pd_direct.%d" % i] = (xi @ H @ xi) > 0          # one obligation per case: nlsat is far quicker on them separately
-            E[tag + ".pd_direct.%d" % i] = True
+            # one obligation per case: nlsat is far quicker on them separately
+            key = tag + (".pd_direct.%d" if pd_strict else ".psd_direct.%d") % i
+            A[key] = _gt0(xi @ H @ xi, pd_strict)
+            E[key] = True
     return True
 
 
@@ -390,7 +397,7 @@ def run(ctx, body, inputs, kwargs, validate=True, known=None):
         # boolean certificates involve the absolute 1e-8 ridge and are float-fragile for large model values: they are
         # decided by the solver only; every numeric output is cross-validated against the native run
         keep = _ABS.get("terms")
-        hx.validate(ctx, body, inputs, kwargs, {k: v for k, v in A.items() if not (k.endswith(_NO_VALIDATE) or ".pd_direct." in k)}, every=1)
+        hx.validate(ctx, body, inputs, kwargs, {k: v for k, v in A.items() if not (k.endswith(_NO_VALIDATE) or ".pd_direct." in k or ".psd_direct." in k)}, every=1)
         _ABS.clear()
         if keep:
             _ABS["terms"] = keep
@@ -437,7 +444,7 @@ def body_kernels(inp, mesh, pd=False):
                   quad_ref=pair_form(n, pairs, lambda i, j: c * c, x), dominance="strict", pd_direct=pd)
     # ConstantZeroth: symmetric PSD (certificate: row dominance)
     H = hx.attempt(ru.constant_zeroth_regularization_matrix_from, coefficient=c, coefficient_zeroth=cz, neighbors=nb, neighbors_sizes=sizes)
-    matrix_checks(A, E, "constant_zeroth", H, n, x, dominance="weak", pd_direct=False)
+    matrix_checks(A, E, "constant_zeroth", H, n, x, dominance="weak", pd_direct=pd and n <= 5, pd_strict=False)
     # Zeroth / BrightnessZeroth kernels: diagonal with non-negative entries
     diagonal_checks(A, E, "zeroth", hx.attempt(ru.zeroth_regularization_matrix_from, coefficient=c, pixels=n), n)
     diagonal_checks(A, E, "brightness_zeroth", hx.attempt(ru.brightness_zeroth_regularization_matrix_from, regularization_weights=w), n)
@@ -462,6 +469,7 @@ def case_kernels(ctx, mesh, pd=False):
     _positive(ctx, c, cz)
     _nonneg(ctx, w)
     inputs.update({"c": c, "cz": cz, "w": w, "x": V.real_array("x", (n,))})
+    ctx.set_case(mesh=str(mesh))
     run(ctx, body_kernels, inputs, {"mesh": mesh, "pd": pd})
 
 
@@ -516,29 +524,30 @@ def body_scheme(inp, mesh, scheme, sscale, img=IMG, pd=False):
     E["params"] = n
     reg = _scheme(scheme, inp, sscale)
     H = hx.attempt(reg.regularization_matrix_from, linear_obj=mapper)
-    w = hx.attempt(reg.regularization_weights_from, linear_obj=mapper)
-    if isinstance(w, hx.Raised):
-        A["weights.no_exception"] = repr(w) + " " + w.msg
-        E["weights.no_exception"] = "ok"
-        return A, E
-    w = np.asarray(hx.unwrap(w))
-    A["weights.shape"] = [int(s) for s in w.shape]
-    E["weights.shape"] = [n]
-    if tuple(w.shape) != (n,):
-        return A, E
+    w = None
+    if scheme in ("AdaptiveBrightness", "AdaptiveBrightnessSplit"):
+        # "w are the per-pixel regularization weights the scheme itself reports"
+        w = hx.attempt(reg.regularization_weights_from, linear_obj=mapper)
+        if isinstance(w, hx.Raised):
+            A["weights.no_exception"] = repr(w) + " " + w.msg
+            E["weights.no_exception"] = "ok"
+            return A, E
+        w = np.asarray(hx.unwrap(w))
+        A["weights.shape"] = [int(s) for s in w.shape]
+        E["weights.shape"] = [n]
+        if tuple(w.shape) != (n,):
+            return A, E
+        abstract_terms(w)
     tag = scheme
-    abstract_terms(w)
     if scheme == "Constant":
         c = inp["c"]
-        A["weights.values"] = w
-        E["weights.values"] = np.array([c] * n, dtype=object)
         matrix_checks(A, E, tag, H, n, x, H_ref=laplacian_ref(n, pairs, lambda i, j: c * c),
                       quad_ref=pair_form(n, pairs, lambda i, j: c * c, x), dominance="strict", pd_direct=pd)
     elif scheme == "AdaptiveBrightness":
         cw = lambda i, j: w[i] * w[i] + w[j] * w[j]
         matrix_checks(A, E, tag, H, n, x, H_ref=laplacian_ref(n, pairs, cw), quad_ref=pair_form(n, pairs, cw, x), dominance="strict")
     elif scheme == "ConstantZeroth":
-        matrix_checks(A, E, tag, H, n, x, dominance="weak", pd_direct=pd)
+        matrix_checks(A, E, tag, H, n, x, dominance="weak", pd_direct=pd, pd_strict=False)
     elif scheme in ("Zeroth", "BrightnessZeroth"):
         diagonal_checks(A, E, tag, H, n)
     elif scheme in ("ConstantSplit", "AdaptiveBrightnessSplit"):
@@ -549,7 +558,10 @@ def body_scheme(inp, mesh, scheme, sscale, img=IMG, pd=False):
             A["cross_rows"] = repr(rows) + rows.msg
             E["cross_rows"] = "ok"
             return A, E
-        rw = w * w
+        if scheme == "ConstantSplit":
+            rw = np.array([inp["c"] * inp["c"]] * n, dtype=object)
+        else:
+            rw = w * w
         matrix_checks(A, E, tag, H, n, x, H_ref=gram_ref(n, rw, *rows))
     return A, E
 
@@ -581,6 +593,7 @@ def case_scheme(ctx, mesh, scheme, sscale, img=IMG, pd=False):
         if sscale == "sym":
             inputs["ss"] = V.real("ss")
             _positive(ctx, inputs["ss"])
+    ctx.set_case(mesh=str(mesh), scheme=scheme, signal_scale=str(sscale))
     # an uninterpreted pow cannot be compared with the native run under a model: those cases are not cross-validated
     run(ctx, body_scheme, inputs, {"mesh": mesh, "scheme": scheme, "sscale": sscale, "img": img, "pd": pd}, validate=(sscale != "sym"))
 
@@ -617,23 +630,26 @@ def body_split(inp, mesh, scheme, weights_mode, pd=False):
     # reg_split_from updates the tables in place: every call gets a fresh carrier
     H = hx.attempt(lambda: reg.regularization_matrix_from(linear_obj=aa.m.MockMapper(
         pix_sub_weights_split_cross=tables(), pixel_signals=sig, parameters=n)))
-    w = hx.attempt(lambda: reg.regularization_weights_from(linear_obj=aa.m.MockMapper(pixel_signals=sig, parameters=n)))
-    if isinstance(w, hx.Raised):
-        A["weights.no_exception"] = repr(w) + " " + w.msg
-        E["weights.no_exception"] = "ok"
-        return A, E
-    w = np.asarray(hx.unwrap(w))
-    A["weights.shape"] = [int(s) for s in w.shape]
-    E["weights.shape"] = [n]
-    if tuple(w.shape) != (n,):
-        return A, E
+    if scheme == "ConstantSplit":
+        rw = np.array([inp["c"] * inp["c"]] * n, dtype=object)
+    else:
+        w = hx.attempt(lambda: reg.regularization_weights_from(linear_obj=aa.m.MockMapper(pixel_signals=sig, parameters=n)))
+        if isinstance(w, hx.Raised):
+            A["weights.no_exception"] = repr(w) + " " + w.msg
+            E["weights.no_exception"] = "ok"
+            return A, E
+        w = np.asarray(hx.unwrap(w))
+        A["weights.shape"] = [int(s) for s in w.shape]
+        E["weights.shape"] = [n]
+        if tuple(w.shape) != (n,):
+            return A, E
+        rw = w * w
+        abstract_terms(w)
     rows = cross_rows(mp, sz, wt_in)
     if isinstance(rows, hx.Raised):
         A["cross_rows"] = repr(rows) + rows.msg
         E["cross_rows"] = "ok"
         return A, E
-    rw = w * w
-    abstract_terms(w)
     # entrywise equality with the Gram matrix ridge*I + sum_i rw_i sum_k a_k a_k^T is the PD certificate (x^T H x is then
     # sum_i rw_i sum_k (a_k.x)^2 + ridge |x|^2 by construction; z3 does not normalise that degree-6 identity, it is not posed)
     matrix_checks(A, E, scheme, H, n, x, H_ref=gram_ref(n, rw, *rows), pd_direct=pd)
